@@ -491,6 +491,7 @@ def r4_union(R):
             if "other" not in t1 or "self" in t1:
                 R.ob("C15-R4", "source-is-other:%d" % _ordinal(b, c), "re-encoding decodes with `other`'s dictionary", False,
                      where=b.where(c.ln))
+    r8_exclusive_targets(R, b, san)
     # every id-carrying field of the result is free of raw `other` ids
     if len(agg) == 1:
         bb, rv, s = agg[0]
@@ -498,6 +499,52 @@ def r4_union(R):
             if fn in ("dataset_index",):
                 # built through the sinks above; the local itself is only tainted through its &mut uses
                 continue
+
+
+def r8_exclusive_targets(R, b, san):
+    R.rule("C15-R8", "in union the merged dictionary, the merged quoted store and the translation cache are written by "
+                     "reencode_term_id only: nothing else may take them mutably (a pre-seeded cache entry or a wholesale merge "
+                     "of `other`'s quoted store bypasses the re-encoding; the two quoted stores number their ids independently "
+                     "even when the dictionary is shared)")
+    if not san:
+        return
+    names = {3: "merged dictionary", 4: "merged quoted store", 5: "translation cache"}
+    roots = {}
+    for c in san:
+        for j, nm in names.items():
+            if len(c.args) > j:
+                r = b.alias_root(c.args[j])
+                if r is not None:
+                    roots.setdefault(r, nm)
+    R.floor("C15-R8", "exclusive targets of reencode_term_id in union", len(roots), 3)
+    # &mut borrows of the roots, and the calls they are handed to
+    mutrefs = {}
+    for bb, i, pl, rv, s in b.assigns():
+        if rv["rv"] in ("ref", "rawptr") and rv.get("bk") in ("mut", "Mut") and not pl["p"]:
+            src = rv["pl"]
+            r = b.alias_root(src["l"]) if not any(e["k"] != "deref" for e in src["p"]) else None
+            if r in roots:
+                mutrefs[pl["l"]] = r
+    nuse = 0
+    for c in b.calls():
+        for j, a in enumerate(c.args):
+            apl = F.op_place(a)
+            if apl is None:
+                continue
+            l = apl["l"]
+            r = mutrefs.get(l)
+            if r is None:
+                ar = b.alias_root(a)
+                r = mutrefs.get(ar) if ar is not None else None
+            if r is None:
+                continue
+            nuse += 1
+            ok = c.name() == "reencode_term_id"
+            R.ob("C15-R8", "mut-use:%s:%s:%d" % (roots[r].replace(" ", "-"), c.name(), _ordinal(b, c)),
+                 "the %s is handed mutably to reencode_term_id only" % roots[r], ok, where=b.where(c.ln),
+                 detail=None if ok else "%s writes the %s directly: identifiers of `other` (quoted-triple ids in particular, which "
+                 "each store numbers on its own) reach the result without being re-encoded" % (c.name(), roots[r]))
+    R.floor("C15-R8", "mutable uses of the exclusive targets in union", nuse, 3)
 
 
 def _ordinal(b, c):
